@@ -150,6 +150,17 @@ class Space3(c01.Space):
                         p = list(base)
                         p[k] = lit
                         yield case('select-outside-list', '%s<-#%s' % (tk, cand), mk(p), k)
+                # the right type keyword around a literal of the wrong kind:  DINT('zz')
+                for lit_in, mname, lk in self._typed_wrong(members):
+                    p = list(base)
+                    p[k] = lit_in
+                    yield case('wrong-literal-kind', '%s:typed[%s]<-%s' % (tk, mname, lk), mk(p), k)
+            if r[0] == 'aggr' and s.resolve(r[1].elem)[0] == 'select' and r[1].kind != 'ARRAY':
+                d = self.lits.alts(r[1].elem, short=True)[0]
+                for lit_in, mname, lk in self._typed_wrong(set(self._leaf_members(s.resolve(r[1].elem)[1]))):
+                    p = list(base)
+                    p[k] = '(%s,%s)' % (d, lit_in)
+                    yield case('wrong-literal-kind', '%s[elem]:typed[%s]<-%s' % (tk, mname, lk), mk(p), k)
         # the same classes inside the parts of an externally mapped instance
         order = s.ancestors_ordered(ename)
         if len(order) > 1:
@@ -193,6 +204,20 @@ class Space3(c01.Space):
             if t.startswith("'") and len(t) >= 2:
                 yield case('unterminated-string', 'tok%d' % ti, ''.join(toks[:ti]) + t[:-1] + ''.join(toks[ti + 1:]))
                 break
+
+    def _typed_wrong(self, members):
+        """(text, member, literal kind): each defined-type member of a select around a literal that its underlying type does not admit"""
+        types, ents = self.s.tmap()
+        for m in sorted(members):
+            if m in ents or m not in types:
+                continue
+            ok = own_kind(self.s, smodel.Named(m))
+            if ok is None:
+                continue
+            for lk, lit in WRONG.items():
+                if lk in ok or lk == 'typed':
+                    continue
+                yield '%s(%s)' % (m.upper(), lit), m, lk
 
     def _leaf_members(self, members):
         out = []
